@@ -6,6 +6,7 @@ exit 2 on I/O or protocol errors.
 -/
 import Driver.Pure
 import Driver.Prov
+import Driver.Height
 
 open Driver
 
@@ -14,6 +15,7 @@ def evalLine (input : String) : Option String :=
   match ws with
   | "pw" :: _ => evalProv ws
   | "pa" :: _ => evalProv ws
+  | "hw" :: _ => evalHeight ws
   | _ => evalPure ws
 
 partial def loop (h : IO.FS.Stream) (n d bad : Nat) (lineNo : Nat) : IO (Nat × Nat × Nat) := do
